@@ -64,6 +64,8 @@ func (s *SuffrageStateBuilder) Build(
 	switch h, proof, updated, err := s.lastSuffrageProof(ctx); {
 	case err != nil:
 		return lastheight, nil, nil, e.Wrap(err)
+	case updated && proof == nil:
+		return lastheight, nil, nil, e.Errorf("empty last suffrage proof")
 	case !updated:
 		if localstate != nil {
 			if _, err := NewSuffrageFromState(localstate); err != nil {
